@@ -38,6 +38,20 @@ func runC09(c *eng.Ctx) {
 			g, w := eng.GuardedBy(fn, d.(ssa.Instruction), many)
 			c.Check(g && len(many) > 0, fn.Name()+" never deletes from a single-segment log", c.Pos(d.(ssa.Instruction)), "deleteSegments is reached only when len(segments) > 1", "a retention pass can delete although only the active segment exists (path "+w.String()+")")
 		}
+		// a delete list given as the prefix segments[:i+1]: its upper bound cannot reach len(segments) (i is seeded with len-2
+		// and only decremented), so the newest segment is never part of it
+		for _, d := range eng.CallsIn(fn, cl+"deleteCleaner.deleteSegments") {
+			a := d.Common().Args
+			sl, isSl := a[len(a)-1].(*ssa.Slice)
+			if !isSl || !eng.Param("segments")(sl.X) || sl.High == nil {
+				continue
+			}
+			okIdx := false
+			if bo, isBo := sl.High.(*ssa.BinOp); isBo && bo.Op == token.ADD && eng.IntConst(1)(bo.Y) && seededBelowLast(bo.X) && sl.Low == nil {
+				okIdx = true
+			}
+			c.Check(okIdx, "delete candidate in "+fn.Name()+" is never the newest segment", c.Pos(d.(ssa.Instruction)), "segments[:i+1] with i starting at len(segments)-2 and only decreasing", "the prefix handed to deleteSegments can include the newest segment")
+		}
 		// every element appended to toDelete has an index that cannot be len-1
 		eng.Instrs(fn, func(in ssa.Instruction) {
 			call, ok := in.(*ssa.Call)
@@ -282,7 +296,20 @@ func runC09(c *eng.Ctx) {
 		}
 		// every comparison of the walk counter with -1 is exactly `> -1`: `>=` walks to index -1, `> 0` never looks at segment 0
 		nCmp, okCmp := allCmpExact(fn, eng.AnyV, eng.IntConst(-1), eng.GT)
-		c.Check(okCmp && nCmp >= 3, fn.Name()+" walks down to index 0 and not further", p.Pos(fn.Pos()), "every test of the counter is `i > -1` (walk, guard, delete loop)", "a loop or guard of "+fn.Name()+" does not test the counter with exactly `> -1`: the oldest segment is skipped or index -1 is read")
+		// the delete list may also be the prefix segments[:i+1] of the input (oldest first), which needs no delete loop
+		prefix := false
+		for _, dc := range eng.CallsIn(fn, cl+"deleteCleaner.deleteSegments") {
+			a := dc.Common().Args
+			if sl, isSl := a[len(a)-1].(*ssa.Slice); isSl && eng.Param("segments")(sl.X) && sl.Low == nil && sl.High != nil &&
+				eng.Bin(token.ADD, func(v ssa.Value) bool { _, isPhi := v.(*ssa.Phi); return isPhi }, eng.IntConst(1))(sl.High) {
+				prefix = true
+			}
+		}
+		minCmp := 3
+		if prefix {
+			minCmp = 2
+		}
+		c.Check(okCmp && nCmp >= minCmp, fn.Name()+" walks down to index 0 and not further", p.Pos(fn.Pos()), "every test of the counter is `i > -1` (walk, guard, delete loop)", "a loop or guard of "+fn.Name()+" does not test the counter with exactly `> -1`: the oldest segment is skipped or index -1 is read")
 		over := eng.CmpEdges(fn, eng.AnyV, eng.LoadNamed(ps.limit, nil), eng.GT)
 		below := eng.CmpEdges(fn, eng.AnyV, eng.IntConst(-1), eng.LE)
 		// After the stop the counter is >= 0, so the `<= -1` edges are infeasible until the counter is decremented: on the remaining
@@ -299,7 +326,7 @@ func runC09(c *eng.Ctx) {
 				reach = true
 			}
 		}
-		c.Check(reach, fn.Name()+" collects the segments below the stop", p.Pos(fn.Pos()), "the delete list is filled on the i > -1 edge after the stop", "after the walk stopped, "+fn.Name()+" never adds a segment to the delete list before calling deleteSegments")
+		c.Check(reach || prefix, fn.Name()+" collects the segments below the stop", p.Pos(fn.Pos()), "the delete list is filled on the i > -1 edge after the stop", "after the walk stopped, "+fn.Name()+" never adds a segment to the delete list before calling deleteSegments")
 	}
 	if fn := c.Fn(cl + "(*deleteCleaner).applyAgeLimit"); fn != nil {
 		apps := delAppends(fn)
@@ -367,6 +394,12 @@ func runC09(c *eng.Ctx) {
 	c.Rule("R01.8", "K5")
 	ruleLogShapes(c)
 	c.Floor(20)
+
+	// ---- extensions from repaired defects
+	c.Rule("R09.5", "K2")
+	ruleRetentionDeletesFromTheOldestEnd(c)
+	c.Rule("R09.4", "K2")
+	ruleCleanerRunsEveryTick(c)
 
 }
 
